@@ -45,8 +45,8 @@ type c09World struct {
 	ctx     context.Context
 	st      *verifkit.MemStore
 	repo    *BlockRepository
-	model   []wire.BlockHeader        // index = height
-	ever    map[bitcoin.Hash32]bool   // every hash ever added
+	model   []wire.BlockHeader      // index = height
+	ever    map[bitcoin.Hash32]bool // every hash ever added
 	counter int
 	flags   map[string]bool
 }
